@@ -8,6 +8,14 @@ NOTE = ("Trusted: go/ssa translation (x/tools v0.29.0), the engine's SSA semanti
         "Claim is bounded: every input inside the per-harness bounds recorded in the evidence; nothing outside them. ")
 
 claimed = {
+ "C04": dict(text="Bounded model checking of block connection (commitTxs via ProcessBlockTransactions, with the context-free CheckTransaction rules in front as in PostCheckBlock) for a block of coinbase + 1..2 transactions "
+                  "over a symbolic UTXO pre-state satisfying the representation invariant, arbitrary script verdicts, values compared as mathematical integers (Int mode): every input exists and is unspent, "
+                  "no double spend, no spend of the block's own coinbase, coinbase maturity, money range of every output and total, inputs cover outputs, coinbase claim <= subsidy + fees; subsidy schedule for every height.",
+             ref="6/C04", note=NOTE + "Outside: BIP68 relative lock-times and the sigop-cost limit (not asserted by this harness), blocks larger than the bound, the UTXO database commit itself. "),
+ "C05": dict(text="Bounded model checking of header/structure rules, each against a transcription of Bitcoin Core's rule: median-time-past over 1..11 ancestors, PreCheckBlock acceptance (PoW verdict, required bits, "
+                  "time-too-old / time-too-new with a symbolic clock, signed version gating, height/MTP bookkeeping), unknown-parent handling, verification-flag schedule, BIP34 height prefix for every uint32, "
+                  "IsFinalTx, Merkle root and the CVE-2012-2459 mutation flag for up to 5 (8) symbolic leaves.",
+             ref="6/C05", note=NOTE + "Proof-of-work arithmetic (compact target, retarget) and the witness commitment are not yet covered by these harnesses; PoW and required-bits are stubs with arbitrary results in PreCheckBlock. "),
  "C10": dict(text="Bounded model checking of the UTXO record codecs: serialize -> parse and single-output lookup round trips in the plain and the compressed format for records of 1..3 output slots "
                   "(each present or spent), scripts from eight families (arbitrary short, P2PKH/P2SH/compressed-P2PK templates with symbolic payload, same-length near misses, CompactSize-boundary lengths), symbolic txid/height/flags/values.",
              ref="6/C10", note=NOTE + "Outside: snapshot file I/O, uncompressed-key P2PK compression (curve arithmetic), more than 3 outputs. "),
@@ -32,8 +40,6 @@ claimed = {
 
 na = {
  "C03": "not yet built in this revision (planned: DESIGN.md 6/C03)",
- "C04": "not yet built in this revision (planned: DESIGN.md 6/C04)",
- "C05": "not yet built in this revision (planned: DESIGN.md 6/C05)",
  "C06": "histories over disk-backed state, float work sums and goroutine workers cannot be encoded as a bounded symbolic pre-state by this engine (DESIGN.md 6/C06)",
  "C07": "quantifies over OS file-system states between syscalls (crash points); nothing there is code the encoder can execute (DESIGN.md 6/C07)",
  "C08": "not yet built in this revision (planned: DESIGN.md 6/C08)",
